@@ -85,6 +85,14 @@ func checkPendingDeleteRangeExact(c *an.Ctx, id string) {
 				c.Ok(id, "pending-delete-range-exact", rule, cl, r, "keeps the entry", nil)
 				continue
 			}
+			// the decision handed to a local predicate of the same function (`inRange := func(h uint64) bool {…}`),
+			// which is checked as a predicate of its own
+			if call, isCall := v.(*ssa.Call); isCall && len(call.Call.Args) == 1 && ct.Of(call.Call.Args[0]) == h {
+				if g := localClosure(fn, call.Call.Value); g != nil && g != cl {
+					c.Ok(id, "pending-delete-range-exact", rule, cl, r, "decided by "+an.FuncName(g), nil)
+					continue
+				}
+			}
 			// the predicate's value: a comparison, or the merge of a short-circuit `a && b`
 			edges := []an.PhiEdge{{Val: v, Facts: cf.AtRefined(r.Block())}}
 			if ph, isPhi := v.(*ssa.Phi); isPhi && ph.Block() == r.Block() {
@@ -215,4 +223,117 @@ func storesHeightUnconditionally(c *an.Ctx, fn *ssa.Function) bool {
 		}
 	}
 	return n > 0
+}
+
+// checkPendingRangeAppendOnly (C03.g): headerRange.Get hands out a sub-slice of the range's own backing
+// array, processHeaders passes it to the Store, and the Store only queues it: the elements are read
+// later, by the write loop. The array of a pending range is therefore append-only — Remove re-slices,
+// nothing copies into it, assigns its elements or reorders it in place. Shifting the remaining headers
+// to the front "to keep the capacity" overwrites a batch that is still queued: a height is never
+// written while the cached head already stands above the hole.
+func checkPendingRangeAppendOnly(c *an.Ctx, id string) {
+	rule := "the backing array of a pending range is append-only: what Get handed out (and the Store has only queued) is never overwritten in place"
+	isHeaders := func(v ssa.Value) bool {
+		for depth := 0; depth < 4 && v != nil; depth++ {
+			switch x := v.(type) {
+			case *ssa.Slice:
+				v = x.X
+				continue
+			case *ssa.UnOp:
+				if fa, ok := x.X.(*ssa.FieldAddr); ok && fieldName(fa) == "headers" && strings.Contains(types.TypeString(fa.X.Type(), nil), "sync.headerRange") {
+					return true
+				}
+			}
+			return false
+		}
+		return false
+	}
+	nFuncs, nAppend := 0, 0
+	for _, fn := range c.P.RepoFuncs() {
+		if fn.Blocks == nil || fn.Pkg == nil || !strings.HasSuffix(fn.Pkg.Pkg.Path(), "/sync") {
+			continue
+		}
+		touches := false
+		an.Instrs(fn, func(in ssa.Instruction) {
+			switch x := in.(type) {
+			case *ssa.Store:
+				if ia, ok := x.Addr.(*ssa.IndexAddr); ok && isHeaders(ia.X) {
+					touches = true
+					c.Fail(id, "pending-range-array-append-only", rule, fn, x, "element assignment", nil)
+				}
+			case *ssa.Call:
+				if b, ok := x.Call.Value.(*ssa.Builtin); ok && len(x.Call.Args) > 0 {
+					switch b.Name() {
+					case "copy", "clear":
+						if isHeaders(x.Call.Args[0]) {
+							touches = true
+							c.Fail(id, "pending-range-array-append-only", rule, fn, x, b.Name()+" into the range's array", nil)
+						}
+					case "append":
+						if isHeaders(x.Call.Args[0]) {
+							touches = true
+							nAppend++
+						}
+					}
+					return
+				}
+				if name := an.StaticFullName(&x.Call); strings.HasPrefix(name, "slices.") || strings.HasPrefix(name, "sort.") {
+					for _, a := range x.Call.Args {
+						if isHeaders(a) {
+							switch name {
+							case "slices.Clone", "slices.Contains", "slices.Index", "slices.IndexFunc", "slices.ContainsFunc", "slices.Equal", "slices.IsSorted", "slices.IsSortedFunc", "slices.Max", "slices.Min":
+							default:
+								touches = true
+								c.Fail(id, "pending-range-array-append-only", rule, fn, x, name+" works in place", nil)
+							}
+						}
+					}
+				}
+			}
+		})
+		if touches {
+			nFuncs++
+		}
+	}
+	if nAppend > 0 {
+		c.Ok(id, "pending-range-array-append-only", rule, c.P.Method("sync", "headerRange", "Append"), nil, itoa(nAppend)+" append site(s), no write in place", nil)
+	}
+	c.Min(id, "append sites of a pending range's array", nAppend, 1)
+}
+
+// localClosure resolves a callee value inside a closure of fn to the function literal of fn it denotes:
+// `name := func(…){…}` in fn, captured by reference and called as `name(…)`.
+func localClosure(fn *ssa.Function, v ssa.Value) *ssa.Function {
+	u, ok := v.(*ssa.UnOp)
+	if !ok {
+		return nil
+	}
+	fv, ok := u.X.(*ssa.FreeVar)
+	if !ok {
+		return nil
+	}
+	var out *ssa.Function
+	n := 0
+	an.Instrs(fn, func(in ssa.Instruction) {
+		st, isSt := in.(*ssa.Store)
+		if !isSt {
+			return
+		}
+		al, isAl := st.Addr.(*ssa.Alloc)
+		if !isAl || al.Comment != fv.Name() {
+			return
+		}
+		n++
+		if mc, isMC := st.Val.(*ssa.MakeClosure); isMC {
+			if g, isFn := mc.Fn.(*ssa.Function); isFn && g.Parent() == fn {
+				out = g
+			}
+		} else if g, isFn := st.Val.(*ssa.Function); isFn && g.Parent() == fn {
+			out = g
+		}
+	})
+	if n != 1 {
+		return nil
+	}
+	return out
 }
